@@ -35,7 +35,8 @@ ASSUMPTIONS = [
 REQUIRED = {"v1.meaning": {"quick": 3000, "thorough": 50000}, "v1.autodetect_meaning": {"quick": 3000, "thorough": 50000},
             "v2.autodetect_meaning": {"quick": 2000, "thorough": 50000}, "mixed.rejected": {"quick": 300, "thorough": 5000},
             "history.rejected_again": {"quick": 300, "thorough": 5000},
-            "history.config_after_other_protocol": {"quick": 200, "thorough": 5000}}
+            "history.config_after_other_protocol": {"quick": 200, "thorough": 5000},
+            "v1.config_file_meaning": {"quick": 80, "thorough": 2000}}
 EXHAUSTIVE = True
 EXHAUSTIVE_SCOPE = "all CNFs with <=2 groups x <=3 alternatives over 3 tags; single-group CNFs with every decoration combination"
 NSHARDS = {"quick": 8, "thorough": 16}
@@ -253,6 +254,53 @@ def config_history(lab, mon, rng, gv):
         else:
             lab.P.use(saved)
 
+def config_file_tags(lab, mon, rng, gv):
+    """An old-style expression written into a configuration file (tags = @a,-@b on one line, further groups on further lines)
+    means what it means on the command line."""
+    import os
+    import shutil
+    import tempfile
+    from behave.configuration import Configuration
+    saved = getattr(lab.P, "_current", None)
+    cwd, home = os.getcwd(), os.environ.get("HOME")
+    root = tempfile.mkdtemp(prefix="bvm-c08-")
+    try:
+        os.makedirs(os.path.join(root, "home"))
+        os.makedirs(os.path.join(root, "work"))
+        os.environ["HOME"] = os.path.join(root, "home")
+        os.chdir(os.path.join(root, "work"))
+        groups = [rng.choice(gv) for _ in range(rng.choice([1, 2]))]
+        if not any("," in a for a in render(groups, lambda gi, ai: {"neg_char": "-", "at": True})):
+            groups = [[[False, "a"], [True, "b"]]] + groups[:1]
+        args = render(groups, lambda gi, ai: {"neg_char": rng.choice("-~"), "at": True})
+        fname = rng.choice(["behave.ini", "setup.cfg", "tox.ini", ".behaverc"])
+        with open(fname, "w") as fh:
+            fh.write("[behave]\ntags = %s\n" % "\n    ".join(args))
+        want = T.truth_table(T.cnf_to_ast(groups), SUBSETS)
+        case = {"kind": "config-file-tags", "file": fname, "tags_lines": args}
+        mon.case(case, True)
+        try:
+            c = Configuration([])
+            got = T.truth_table_of(c.tag_expression.check, SUBSETS)
+            mon.check("v1.config_file_meaning", got == want, lambda: dict(case=case, want=want, got=got, parsed=repr(c.tag_expression), tags=c.tags))
+        except Exception as ex:
+            mon.check("v1.config_file_meaning", False, dict(case=case, error=repr(ex)))
+    finally:
+        os.chdir(cwd)
+        if home is None:
+            os.environ.pop("HOME", None)
+        else:
+            os.environ["HOME"] = home
+        shutil.rmtree(root, ignore_errors=True)
+        if saved is None:
+            if "_current" in lab.P.__dict__:
+                try:
+                    type.__delattr__(lab.P, "_current")
+                except Exception:
+                    lab.P.use(lab.P.DEFAULT)
+        else:
+            lab.P.use(saved)
+
 
 def run(spec, mon):
     lab = Lab()
@@ -309,6 +357,8 @@ def run(spec, mon):
             check_mixed(lab, mon, m, as_list=rng.random() < 0.3)
         parse_history(lab, mon, rng, ast, mixed[:3])
         config_history(lab, mon, rng, gv)
+        if rng.random() < 0.4:
+            config_file_tags(lab, mon, rng, gv)
         if rng.random() < 0.3:
             # valid texts twice in a row as well (string form, then list form): same truth table both times
             groups = [rng.choice(gv4) for _ in range(rng.choice([1, 2]))]
